@@ -1,10 +1,695 @@
+// Harness of the parts c02prims (C02: Deserializer primitives, stream Read helpers, typeutils, serializableorderedmap
+// decode are total and resource-bounded) and c01stream (C01: stream Write/Read pairs round-trip through any reader,
+// Serializer/Deserializer primitive pairs round-trip). Sub-commands: prims, stream, probe.
 package main
 
-import "os"
+import (
+	"context"
+	"flag"
+	"fmt"
+	"math/big"
+	"os"
+	"strings"
+
+	"github.com/iotaledger/hive.go/ds/serializableorderedmap"
+	"github.com/iotaledger/hive.go/serializer/v2"
+	"github.com/iotaledger/hive.go/serializer/v2/serix"
+	"github.com/iotaledger/hive.go/serializer/v2/stream"
+	"github.com/iotaledger/hive.go/serializer/v2/typeutils"
+
+	"verif/harness/vx"
+)
+
+const sigD02d = "D02d-zero-size-items"
+
+type gen struct {
+	r     *vx.Rng
+	st    *vx.Stats
+	cf    *vx.CasesFile
+	part  string
+	fails int
+}
+
+func (g *gen) add(term string, desc map[string]any, key string, nontrivial bool) {
+	g.cf.Add(term)
+	desc["part"] = g.part
+	g.st.CaseIndex = append(g.st.CaseIndex, desc)
+	g.st.Case(key, nontrivial)
+}
+
+func (g *gen) fail(desc map[string]any) {
+	g.fails++
+	if g.fails <= 20 {
+		desc["part"] = g.part
+		g.st.Fail(desc)
+	}
+}
+
+// ---------- Deserializer programs ----------
+
+func (g *gen) genProg(allowBadCfg bool) []elem {
+	n := 1 + g.r.Intn(4)
+	var prog []elem
+	for i := 0; i < n; i++ {
+		prog = append(prog, genElem(g.r, allowBadCfg))
+	}
+	if g.r.Chance(1, 3) {
+		prog = append(prog, consumedAllElem())
+	}
+	return prog
+}
+
+func progNontrivial(prog []elem) bool {
+	if len(prog) >= 2 {
+		return true
+	}
+	for _, e := range prog {
+		if len(e.prefix) > 0 {
+			return true
+		}
+	}
+	return false
+}
+
+func hasBadCfg(prog []elem) bool {
+	for _, e := range prog {
+		if strings.Contains(e.dop, "LBad") {
+			return true
+		}
+	}
+	return false
+}
+
+// c02 oracle on one Deserializer run (independent of the model)
+func (g *gen) judgeDes(input []byte, prog []elem, o desObs, what string) {
+	_, dops, _, kinds := progTerms(prog)
+	desc := map[string]any{"what": what, "input": hexs(input), "ops": dops}
+	g.add(desCaseT(input, dops, o), desc, "des|"+kinds+"|"+what+"|"+classify(o.err)+fmt.Sprint(o.panicked), progNontrivial(prog))
+	g.st.Count("des." + what)
+	if o.panicked {
+		g.st.Count("des.outcome.panic")
+	} else if o.err != nil {
+		g.st.Count("des.outcome." + classify(o.err))
+	} else {
+		g.st.Count("des.outcome.ok")
+	}
+	switch {
+	case o.panicked && !hasBadCfg(prog):
+		g.fail(map[string]any{"sig": "des-panic", "input": hexs(input), "ops": dops, "panic": fmt.Sprint(o.pv)})
+	case !o.panicked && o.off > len(input):
+		g.fail(map[string]any{"sig": "des-consumed-gt-len", "input": hexs(input), "ops": dops, "off": o.off})
+	case !o.panicked && o.alloc > allocBound(len(input)):
+		g.fail(map[string]any{"sig": "des-alloc", "input": hexs(input), "ops": dops, "alloc": o.alloc, "bound": allocBound(len(input))})
+	case o.seqIters > len(input)+1:
+		g.fail(map[string]any{"sig": "des-iterations", "input": hexs(input), "ops": dops, "iterations": o.seqIters})
+	}
+}
+
+var alphabet = []byte{0x00, 0x01, 0x02, 0x7f, 0x80, 0xff}
+
+func (g *gen) mutations(input []byte, prog []elem) map[string][]byte {
+	out := map[string][]byte{}
+	r := g.r
+	// offsets of the steps
+	offs := make([]int, len(prog))
+	pos := 0
+	for i, e := range prog {
+		offs[i] = pos
+		b, _, _ := serialize([]elem{e})
+		pos += len(b)
+	}
+	if len(input) > 0 {
+		out["trunc-rand"] = input[:r.Intn(len(input))]
+		out["trunc-last"] = input[:len(input)-1]
+		fl := exact(input)
+		fl[r.Intn(len(fl))] ^= 1 << uint(r.Intn(8))
+		out["bitflip"] = fl
+	}
+	out["garbage-tail"] = append(exact(input), rbytes(r, 1+r.Intn(3))...)
+	for i, e := range prog {
+		if len(e.prefix) == 0 || e.zeroSz || e.prefix[0] == 0 || offs[i]+e.prefix[0] > len(input) {
+			continue
+		}
+		w := e.prefix[0]
+		inf := exact(input)
+		switch r.Intn(4) {
+		case 0: // 2^k - 1
+			for j := 0; j < w; j++ {
+				inf[offs[i]+j] = 0xff
+			}
+		case 1: // 2^(8w-1) - 1 .. : top byte 7f
+			for j := 0; j < w; j++ {
+				inf[offs[i]+j] = 0xff
+			}
+			inf[offs[i]+w-1] = byte(vx.Pick(r, []int{0x7f, 0x3f, 0x0f, 0x00, 0x80}))
+		case 2: // +1
+			inf[offs[i]]++
+		default: // a middle byte set
+			inf[offs[i]+r.Intn(w)] = byte(vx.Pick(r, []int{0x01, 0x10, 0xff}))
+		}
+		out[fmt.Sprintf("inflate%d", i)] = inf
+		if r.Chance(1, 2) {
+			out[fmt.Sprintf("inflate-trunc%d", i)] = inf[:offs[i]+w+r.Intn(len(inf)-offs[i]-w+1)]
+		}
+	}
+	n := r.Intn(9)
+	rs := make([]byte, n)
+	for i := range rs {
+		rs[i] = vx.Pick(r, alphabet)
+	}
+	out["random-short"] = rs
+	return out
+}
+
+func sortedKeys(m map[string][]byte) []string {
+	ks := make([]string, 0, len(m))
+	for k := range m {
+		ks = append(ks, k)
+	}
+	for i := range ks {
+		for j := i + 1; j < len(ks); j++ {
+			if ks[j] < ks[i] {
+				ks[i], ks[j] = ks[j], ks[i]
+			}
+		}
+	}
+	return ks
+}
+
+// ---------- ordered map / from_bytes ----------
+
+type integer interface {
+	~uint8 | ~uint16 | ~uint32 | ~uint64 | ~int8 | ~int16 | ~int32 | ~int64
+}
+
+func omapRun[K interface {
+	comparable
+	integer
+}, V integer](api *serix.API, input []byte) (entries []string, n int, err error) {
+	m := serializableorderedmap.New[K, V]()
+	n, err = m.Decode(api, input)
+	m.ForEach(func(k K, v V) bool {
+		entries = append(entries, fmt.Sprintf("((%d)%%Z, (%d)%%Z)", k, v))
+		return true
+	})
+	return
+}
+
+func omapEncode[K interface {
+	comparable
+	integer
+}, V integer](api *serix.API, ks, vs []uint64) ([]byte, error) {
+	m := serializableorderedmap.New[K, V]()
+	for i := range ks {
+		m.Set(K(ks[i]), V(vs[i]))
+	}
+	return m.Encode(api)
+}
+
+var omapCombos = [][2]int{{0, 1}, {1, 0}, {2, 3}, {4, 5}, {0, 0}}
+
+func (g *gen) omapCase(api *serix.API, combo int, input []byte, what string, valid bool) {
+	var entries []string
+	var n int
+	var err error
+	in := exact(input)
+	alloc, panicked, pv := measured(func() {
+		switch combo {
+		case 0:
+			entries, n, err = omapRun[uint8, uint16](api, in)
+		case 1:
+			entries, n, err = omapRun[uint16, uint8](api, in)
+		case 2:
+			entries, n, err = omapRun[uint32, uint64](api, in)
+		case 3:
+			entries, n, err = omapRun[int8, int16](api, in)
+		default:
+			entries, n, err = omapRun[uint8, uint8](api, in)
+		}
+	})
+	res := "Panic"
+	if !panicked {
+		if err != nil {
+			res = joinT("Err", classify(err))
+		} else {
+			l := "([]:list (Z*Z))"
+			if len(entries) > 0 {
+				l = vx.List(entries)
+			}
+			res = joinT("Ok", vx.Pair(l, vx.Nat(n)))
+		}
+	}
+	kk, vk := nkNames[omapCombos[combo][0]], nkNames[omapCombos[combo][1]]
+	desc := map[string]any{"what": "omap-" + what, "input": hexs(input), "types": kk + "->" + vk}
+	g.add(joinT("COMap", kk, vk, bytesT(input), res, vx.N(alloc)), desc, "omap|"+kk+vk+what+classify(err)+fmt.Sprint(len(entries)), len(input) > 4)
+	g.st.Count("omap." + what)
+	switch {
+	case panicked:
+		g.fail(map[string]any{"sig": "omap-panic", "input": hexs(input), "panic": fmt.Sprint(pv)})
+	case n > len(input):
+		g.fail(map[string]any{"sig": "omap-consumed-gt-len", "input": hexs(input), "n": n})
+	case alloc > allocBound(len(input))+256*uint64(len(entries)):
+		g.fail(map[string]any{"sig": "omap-alloc", "input": hexs(input), "alloc": alloc})
+	case valid && (err != nil || n != len(input)):
+		g.fail(map[string]any{"sig": "omap-roundtrip", "input": hexs(input), "err": fmt.Sprint(err), "n": n})
+	}
+}
+
+func (g *gen) omapCases(n int) {
+	api := serix.NewAPI()
+	_ = context.Background()
+	r := g.r
+	for i := 0; i < n; i++ {
+		combo := r.Intn(len(omapCombos))
+		cnt := r.Intn(5)
+		ks, vs := make([]uint64, cnt), make([]uint64, cnt)
+		for j := range ks {
+			ks[j], vs[j] = uint64(r.Intn(4)), r.U64()
+			if r.Chance(1, 4) {
+				ks[j] = r.U64()
+			}
+		}
+		var enc []byte
+		var err error
+		switch combo {
+		case 0:
+			enc, err = omapEncode[uint8, uint16](api, ks, vs)
+		case 1:
+			enc, err = omapEncode[uint16, uint8](api, ks, vs)
+		case 2:
+			enc, err = omapEncode[uint32, uint64](api, ks, vs)
+		case 3:
+			enc, err = omapEncode[int8, int16](api, ks, vs)
+		default:
+			enc, err = omapEncode[uint8, uint8](api, ks, vs)
+		}
+		if err != nil {
+			vx.Die("omap encode: %v", err)
+		}
+		g.omapCase(api, combo, enc, "valid", true)
+		if len(enc) > 0 {
+			g.omapCase(api, combo, enc[:r.Intn(len(enc))], "trunc", false)
+		}
+		inf := exact(enc)
+		switch r.Intn(3) {
+		case 0:
+			inf[0], inf[1], inf[2], inf[3] = 0xff, 0xff, 0xff, 0xff
+		case 1:
+			inf[0]++
+		default:
+			inf[2] = 0x01
+		}
+		g.omapCase(api, combo, inf, "inflate", false)
+		// duplicates inside the wire data: count says cnt+1, the last entry repeats the first key
+		if cnt > 0 {
+			g.omapCase(api, combo, append(exact(enc), 0), "tail", false)
+		}
+		rs := make([]byte, r.Intn(9))
+		for j := range rs {
+			rs[j] = vx.Pick(r, alphabet)
+		}
+		g.omapCase(api, combo, rs, "random", false)
+	}
+}
+
+func (g *gen) fromBytesCases(n int) {
+	r := g.r
+	for i := 0; i < n; i++ {
+		arr := r.Bool()
+		l := vx.Pick(r, []int{0, 1, 7, 8, 9, 31, 32, 33, 40})
+		in := rbytes(r, l)
+		var res string
+		_, panicked, pv := measured(func() {
+			if arr {
+				v, c, err := typeutils.ByteArray32FromBytes(in)
+				if err != nil {
+					res = joinT("Err", classify(err))
+				} else {
+					res = joinT("Ok", vx.Pair(joinT("SVBytes", bytesT(v[:])), vx.Nat(c)))
+				}
+				if c > len(in) {
+					g.fail(map[string]any{"sig": "frombytes-consumed-gt-len", "input": hexs(in)})
+				}
+			} else {
+				v, c, err := typeutils.Uint64FromBytes(in)
+				if err != nil {
+					res = joinT("Err", classify(err))
+				} else {
+					res = joinT("Ok", vx.Pair(joinT("SVNum", vx.ZU(v)), vx.Nat(c)))
+				}
+				if c > len(in) {
+					g.fail(map[string]any{"sig": "frombytes-consumed-gt-len", "input": hexs(in)})
+				}
+			}
+		})
+		if panicked {
+			res = "Panic"
+			g.fail(map[string]any{"sig": "frombytes-panic", "input": hexs(in), "panic": fmt.Sprint(pv)})
+		}
+		g.add(joinT("CFrom", vx.Bool(arr), bytesT(in), res), map[string]any{"what": "frombytes", "input": hexs(in), "arr32": arr},
+			fmt.Sprintf("from|%v|%d", arr, l), false)
+	}
+}
+
+// ---------- stream reads on malformed data ----------
+
+func genRop(r *vx.Rng) rop {
+	l := vx.Pick(r, goodLpts)
+	switch r.Intn(8) {
+	case 0:
+		return ropT(r.Intn(12))
+	case 1:
+		return ropBytes(vx.Pick(r, []int64{0, 1, 3, 8, 100, 4096, 4097, 1 << 30, 1 << 62, -1, -5}))
+	case 2, 3:
+		return ropBytesSize(l)
+	case 4:
+		return ropObject(vx.Pick(r, []int64{0, 8, 32, 5, -1, 1 << 40}), cbKind{kind: r.Intn(4), k: r.Intn(6)})
+	case 5:
+		return ropObjectSize(l, cbKind{kind: r.Intn(4), k: r.Intn(6)})
+	case 6:
+		return ropCollection(l, 1+r.Intn(3))
+	}
+	return ropPeek(l)
+}
+
+func (g *gen) judgeRead(o rop, kind string, data []byte, what string) readObs {
+	if o.seek && kind != "plain" && kind != "custom" {
+		kind = "custom"
+	}
+	ob, evs := runRead(o, kind, data, g.r)
+	desc := map[string]any{"what": what, "data": hexs(data), "op": o.term, "reader": kind, "events": evs}
+	g.add(readCaseT(data, evs, o, ob), desc, "read|"+o.kind+"|"+kind+"|"+what+"|"+ob.res[:min(len(ob.res), 14)], kind != "plain" || o.pfx > 0)
+	g.st.Count("read." + what)
+	g.st.Count("read.reader." + kind)
+	switch {
+	case ob.panicked:
+		g.st.Count("read.outcome.panic")
+		g.fail(map[string]any{"sig": "stream-panic", "data": hexs(data), "op": o.term, "reader": kind, "panic": fmt.Sprint(ob.pv)})
+	case ob.consumed > len(data):
+		g.fail(map[string]any{"sig": "stream-consumed-gt-len", "data": hexs(data), "op": o.term, "reader": kind})
+	case ob.alloc > allocBound(len(data)):
+		g.fail(map[string]any{"sig": "stream-alloc", "data": hexs(data), "op": o.term, "reader": kind, "alloc": ob.alloc, "bound": allocBound(len(data))})
+	case ob.iters > len(data)+1:
+		g.fail(map[string]any{"sig": "stream-iterations", "data": hexs(data), "op": o.term, "reader": kind, "iterations": ob.iters})
+	}
+	if !ob.panicked {
+		if ob.err != nil {
+			g.st.Count("read.outcome." + classify(ob.err))
+		} else {
+			g.st.Count("read.outcome.ok")
+		}
+	}
+	return ob
+}
+
+// ---------- sub-command prims (C02) ----------
+
+func (g *gen) directedPrims() {
+	id := func(e elem) []elem { return []elem{e} }
+	// D02a regression: 32-bit prefix 0x0fffffff, 2 bytes of data, maxLen 10 (allocated 256 MiB before 2366906)
+	d02a := []byte{0xff, 0xff, 0xff, 0x0f, 1, 2}
+	for _, str := range []bool{false, true} {
+		p := id(varElem(g.r, str, serializer.SeriLengthPrefixTypeAsUint32, nil, 0, 10, true))
+		g.judgeDes(d02a, p, runDes(d02a, p), "directed-D02a")
+		p = id(varElem(g.r, str, serializer.SeriLengthPrefixTypeAsUint32, nil, 0, 0, true))
+		g.judgeDes(d02a, p, runDes(d02a, p), "directed-D02a-nomax")
+		p = id(varElem(g.r, str, serializer.SeriLengthPrefixTypeAsUint64, nil, 0, 0, true))
+		big := []byte{0xff, 0xff, 0xff, 0xff, 0xff, 0xff, 0xff, 0xff, 1}
+		g.judgeDes(big, p, runDes(big, p), "directed-u64-prefix")
+		big2 := []byte{0xff, 0xff, 0xff, 0xff, 0xff, 0xff, 0xff, 0x7f, 1}
+		g.judgeDes(big2, p, runDes(big2, p), "directed-u64-prefix")
+	}
+	// the length error wins over missing data, the offset stays behind the prefix
+	p := []elem{varElem(g.r, false, serializer.SeriLengthPrefixTypeAsByte, nil, 3, 0, true), numElem(0, big.NewInt(0))}
+	g.judgeDes([]byte{2, 9, 9, 7}, p, runDes([]byte{2, 9, 9, 7}, p), "directed-minlen")
+	// configuration error: unknown length prefix type panics (programmer error, not input)
+	p = id(varElem(g.r, false, badLpt, nil, 0, 0, true))
+	g.judgeDes([]byte{1, 2}, p, runDes([]byte{1, 2}, p), "directed-badlpt")
+	// D02c regressions on the stream side
+	g.judgeRead(ropBytesSize(serializer.SeriLengthPrefixTypeAsUint64), "plain", []byte{0xff, 0xff, 0xff, 0xff, 0xff, 0xff, 0xff, 0xff}, "directed-D02c")
+	g.judgeRead(ropBytesSize(serializer.SeriLengthPrefixTypeAsUint32), "plain", d02a, "directed-D02c")
+	g.judgeRead(ropObjectSize(serializer.SeriLengthPrefixTypeAsUint64, cbKind{kind: 0}), "plain", []byte{0, 0, 0, 0, 0, 0, 0, 0x80, 1}, "directed-D02c")
+	g.judgeRead(ropBytes(1<<62), "onebyte", []byte{1, 2, 3}, "directed-D02c")
+	// D02d (known finding): zero-size items iterate prefix-many times. Go side only (the record of 65535 items is capped).
+	{
+		e := seqElem(serializer.SeriLengthPrefixTypeAsUint16, itemKind{kind: 0, k: 0}, nil, false, 0, 0, 0)
+		o := runDes([]byte{0xff, 0xff}, id(e))
+		if o.seqIters > 3 {
+			g.st.Known = append(g.st.Known, sigD02d)
+		}
+		g.st.Count("directed.D02d.iterations." + fmt.Sprint(o.seqIters))
+		ob, _ := runRead(ropCollection(serializer.SeriLengthPrefixTypeAsUint16, 0), "plain", []byte{0xff, 0xff}, g.r)
+		g.st.Count("directed.D02d.collection-iterations." + fmt.Sprint(ob.iters))
+	}
+}
+
+func (g *gen) prims(n int) {
+	g.directedPrims()
+	for i := 0; i < n; i++ {
+		prog := g.genProg(true)
+		input, err, panicked := serialize(prog)
+		if panicked || err != nil {
+			// the write side rejected the program (bad config, range): still decode short random input with it
+			input = rbytes(g.r, g.r.Intn(6))
+		}
+		g.judgeDes(input, prog, runDes(input, prog), "valid")
+		muts := g.mutations(input, prog)
+		for _, k := range sortedKeys(muts) {
+			name := strings.TrimRight(k, "0123456789")
+			g.judgeDes(muts[k], prog, runDes(muts[k], prog), name)
+		}
+	}
+	// stream helpers on malformed data
+	for i := 0; i < n; i++ {
+		o := genRop(g.r)
+		var data []byte
+		switch g.r.Intn(4) {
+		case 0:
+			data = make([]byte, g.r.Intn(9))
+			for j := range data {
+				data[j] = vx.Pick(g.r, alphabet)
+			}
+		case 1: // a prefix 2^k-1 (or nearby) followed by a few bytes
+			data = make([]byte, max(o.pfx, 1))
+			for j := range data {
+				data[j] = 0xff
+			}
+			data[len(data)-1] = byte(vx.Pick(g.r, []int{0xff, 0x7f, 0x80, 0x00, 0x01}))
+			data = append(data, rbytes(g.r, g.r.Intn(12))...)
+		case 2: // a plausible small prefix and enough / not enough data
+			data = make([]byte, max(o.pfx, 1))
+			data[0] = byte(g.r.Intn(12))
+			data = append(data, rbytes(g.r, g.r.Intn(40))...)
+		default:
+			data = rbytes(g.r, g.r.Intn(48))
+		}
+		if o.zero {
+			continue
+		}
+		for _, kind := range []string{"plain", vx.Pick(g.r, readerKinds[1:]), "custom"} {
+			g.judgeRead(o, kind, data, "malformed")
+		}
+	}
+	g.omapCases(n / 4)
+	g.fromBytesCases(40)
+}
+
+// ---------- sub-command stream (C01) ----------
+
+func (g *gen) roundtripProg() {
+	prog := g.genProg(false)
+	sops, dops, wants, kinds := progTerms(prog)
+	out, err, panicked := serialize(prog)
+	g.add(joinT("CSer", vx.List(sops), resBytesT(out, err, panicked)), map[string]any{"what": "ser", "ops": sops}, "ser|"+kinds+classify(err), progNontrivial(prog))
+	g.st.Count("ser")
+	if panicked {
+		g.fail(map[string]any{"sig": "ser-panic", "ops": sops})
+		return
+	}
+	if err != nil {
+		g.st.Count("ser.err." + classify(err))
+		return
+	}
+	o := runDes(out, prog)
+	g.add(desCaseT(out, dops, o), map[string]any{"what": "des-of-ser", "input": hexs(out), "ops": dops}, "desser|"+kinds+classify(o.err), progNontrivial(prog))
+	g.st.Count("des-of-ser")
+	// round-trip oracle: every pair whose write succeeded reads back the written value, all bytes consumed
+	expectOK := true
+	for _, w := range wants {
+		if w == "" {
+			expectOK = false
+		}
+	}
+	if !expectOK {
+		g.st.Count("des-of-ser.no-pair-expectation")
+		return
+	}
+	bad := o.panicked || o.err != nil || o.off != len(out) || len(o.outs) != len(wants)
+	if !bad {
+		for i := range wants {
+			if wants[i] != o.outs[i] {
+				bad = true
+			}
+		}
+	}
+	if bad {
+		g.fail(map[string]any{"sig": "serdes-roundtrip", "ops": sops, "bytes": hexs(out), "got": o.outs, "want": wants, "err": fmt.Sprint(o.err)})
+	}
+}
+
+func (g *gen) serErrorCases() {
+	mk := func(sop string, f func(s *serializer.Serializer)) {
+		e := elem{kind: "sererr", sops: []string{sop}, ser: f}
+		out, err, panicked := serialize([]elem{e})
+		g.add(joinT("CSer", vx.List(e.sops), resBytesT(out, err, panicked)), map[string]any{"what": "ser-error", "ops": e.sops}, "sererr|"+sop[:min(len(sop), 24)], true)
+	}
+	long := make([]byte, 300)
+	mk(joinT("SVar", "L8", bytesT(long), "0%Z", "0%Z"), func(s *serializer.Serializer) {
+		s.WriteVariableByteSlice(long, serializer.SeriLengthPrefixTypeAsByte, idErr, 0, 0)
+	})
+	mk(joinT("SString", "L8", bytesT(long), "0%Z", "0%Z"), func(s *serializer.Serializer) {
+		s.WriteString(string(long), serializer.SeriLengthPrefixTypeAsByte, idErr, 0, 0)
+	})
+	mk(joinT("SVar", "L16", bytesT(long), "0%Z", "299%Z"), func(s *serializer.Serializer) {
+		s.WriteVariableByteSlice(long, serializer.SeriLengthPrefixTypeAsUint16, idErr, 0, 299)
+	})
+	mk(joinT("SVar", "L16", bytesT(long), "301%Z", "0%Z"), func(s *serializer.Serializer) {
+		s.WriteVariableByteSlice(long, serializer.SeriLengthPrefixTypeAsUint16, idErr, 301, 0)
+	})
+	mk(joinT("SString", "L32", bytesT(long[:5]), "6%Z", "0%Z"), func(s *serializer.Serializer) {
+		s.WriteString(string(long[:5]), serializer.SeriLengthPrefixTypeAsUint32, idErr, 6, 0)
+	})
+	mk(joinT("SString", "L32", bytesT(long[:5]), "0%Z", "4%Z"), func(s *serializer.Serializer) {
+		s.WriteString(string(long[:5]), serializer.SeriLengthPrefixTypeAsUint32, idErr, 0, 4)
+	})
+	mk(joinT("SVar", "LBad", bytesT(long[:5]), "0%Z", "0%Z"), func(s *serializer.Serializer) {
+		s.WriteVariableByteSlice(long[:5], badLpt, idErr, 0, 0)
+	})
+	mk("(SU256 None)", func(s *serializer.Serializer) { s.WriteUint256(nil, idErr) })
+	mk("(SU256 (Some (-1)%Z))", func(s *serializer.Serializer) { s.WriteUint256(big.NewInt(-1), idErr) })
+	two256 := new(big.Int).Lsh(big.NewInt(1), 256)
+	mk("(SU256 (Some "+zbig(two256)+"))", func(s *serializer.Serializer) { s.WriteUint256(two256, idErr) })
+	// sticky error: later writes are skipped
+	e := []elem{{kind: "x", sops: []string{"(SU256 None)", "(SBool true)"}, ser: func(s *serializer.Serializer) {
+		s.WriteUint256(nil, idErr)
+		s.WriteBool(true, idErr)
+	}}}
+	out, err, panicked := serialize(e)
+	g.add(joinT("CSer", vx.List(e[0].sops), resBytesT(out, err, panicked)), map[string]any{"what": "ser-error-sticky"}, "sererr|sticky", true)
+}
+
+func (g *gen) streamPair(o wop, kinds []string) {
+	r := g.r
+	pre := rbytes(r, r.Intn(4))
+	out, err, panicked := runWrite(pre, o)
+	g.add(joinT("CWrite", bytesT(pre), o.term, resBytesT(out, err, panicked)), map[string]any{"what": "write", "op": o.term, "pre": hexs(pre)},
+		"write|"+o.kind+"|"+classify(err), true)
+	g.st.Count("write." + o.kind)
+	if panicked {
+		g.fail(map[string]any{"sig": "write-panic", "op": o.term})
+		return
+	}
+	if err != nil || o.read.run == nil {
+		g.st.Count("write.err")
+		return
+	}
+	written := out[len(pre):]
+	tail := rbytes(r, r.Intn(4))
+	data := append(exact(written), tail...)
+	for _, kind := range kinds {
+		if o.read.zero && len(data) > 0 && false {
+			continue
+		}
+		if o.read.seek && kind != "plain" && kind != "custom" {
+			continue
+		}
+		ob, evs := runRead(o.read, kind, data, r)
+		g.add(readCaseT(data, evs, o.read, ob), map[string]any{"what": "read-of-write", "data": hexs(data), "op": o.read.term, "reader": kind, "events": evs},
+			"rw|"+o.kind+"|"+kind+"|"+ob.res[:min(len(ob.res), 10)], kind != "plain")
+		g.st.Count("read-of-write." + kind)
+		if o.want == "" {
+			continue
+		}
+		faulty := kind == "timeout" || strings.Contains(evs, "Fault")
+		switch {
+		case ob.panicked:
+			g.fail(map[string]any{"sig": "stream-panic", "op": o.read.term, "reader": kind, "data": hexs(data)})
+		case ob.err != nil && !(faulty && classify(ob.err) == "EFault"):
+			g.fail(map[string]any{"sig": "stream-roundtrip", "op": o.read.term, "write": o.term, "reader": kind, "events": evs, "err": fmt.Sprint(ob.err)})
+		case ob.err == nil && (ob.val != o.want || ob.consumed != len(written)):
+			g.fail(map[string]any{"sig": "stream-roundtrip", "op": o.read.term, "write": o.term, "reader": kind, "events": evs, "got": ob.val, "want": o.want, "consumed": ob.consumed})
+		}
+		if ob.err != nil {
+			g.st.Count("read-of-write.fault")
+		}
+	}
+}
+
+func (g *gen) directedStream() {
+	// D01c regression: 11 bytes through a reader that hands out one byte per Read
+	data := []byte("hello world")
+	for _, kind := range readerKinds {
+		o := wop{kind: "bytes", term: joinT("WBytes", bytesT(data)), want: joinT("SVBytes", bytesT(data)), read: ropBytes(int64(len(data))),
+			run: func(w *stream.ByteBuffer) error { return stream.WriteBytes(w, data) }}
+		g.streamPair(o, []string{kind})
+	}
+	// ReadBytes across the 4 KiB chunk boundary of the D02c repair
+	for i, n := range []int{4096, 4097, 8200} {
+		big := rbytes(g.r, n)
+		l := []serializer.SeriLengthPrefixType{serializer.SeriLengthPrefixTypeAsUint16, serializer.SeriLengthPrefixTypeAsUint32, serializer.SeriLengthPrefixTypeAsUint64}[i]
+		o := wop{kind: "bytessize", term: joinT("WBytesSize", lptT(l), bytesT(big)), want: joinT("SVBytes", bytesT(big)), read: ropBytesSize(l),
+			run: func(w *stream.ByteBuffer) error { return stream.WriteBytesWithSize(w, big, l) }}
+		g.streamPair(o, []string{[]string{"plain", "half", "dataerr"}[i], "custom"})
+	}
+	big := rbytes(g.r, 4100)
+	o := wop{kind: "bytes", term: joinT("WBytes", bytesT(big)), want: joinT("SVBytes", bytesT(big)), read: ropBytes(4100),
+		run: func(w *stream.ByteBuffer) error { return stream.WriteBytes(w, big) }}
+	g.streamPair(o, []string{"onebyte"})
+}
+
+func (g *gen) streamPart(n int) {
+	g.directedStream()
+	g.serErrorCases()
+	for i := 0; i < n; i++ {
+		g.roundtripProg()
+	}
+	for i := 0; i < n; i++ {
+		g.streamPair(genWop(g.r), readerKinds)
+	}
+}
 
 func main() {
 	if len(os.Args) > 1 && os.Args[1] == "probe" {
 		probe()
 		return
+	}
+	if len(os.Args) < 2 || (os.Args[1] != "prims" && os.Args[1] != "stream") {
+		vx.Die("usage: hx-c02prims prims|stream|probe [--n N] --seed S --out cases.v --stats stats.json")
+	}
+	fs := flag.NewFlagSet(os.Args[1], flag.ExitOnError)
+	n := fs.Int("n", 200, "number of generated programs / operations")
+	seed := fs.Uint64("seed", 1, "seed")
+	out := fs.String("out", "cases.v", "cases file")
+	stats := fs.String("stats", "stats.json", "stats file")
+	_ = fs.Parse(os.Args[2:])
+
+	g := &gen{r: vx.NewRng(*seed), part: os.Args[1]}
+	g.st = vx.NewStats("distinct (op kinds, mutation/reader kind, outcome class); non-trivial = program of >= 2 primitives or a length-prefixed/sequence primitive, stream op with a length prefix or under a non-trivial reader")
+	g.cf = &vx.CasesFile{
+		Header: "From Coq Require Import ZArith NArith List.\nFrom Verif.C02_Prims Require Import Model Stream Corr.\nImport ListNotations.\n",
+		Type:   "case",
+		Footer: "Definition M := Eval vm_compute in mismatches cases.\nPrint M.",
+	}
+	if os.Args[1] == "prims" {
+		g.prims(*n)
+	} else {
+		g.streamPart(*n)
+	}
+	g.st.Extra["oracle_failures_total"] = g.fails
+	if err := g.cf.Write(*out); err != nil {
+		vx.Die("write cases: %v", err)
+	}
+	if err := g.st.Write(*stats); err != nil {
+		vx.Die("write stats: %v", err)
 	}
 }
